@@ -60,9 +60,27 @@ func replaceFirst(b []byte, old, new string) []byte {
 	return []byte(strings.Replace(string(b), old, new, 1))
 }
 
+// genHeadMix: 1..3 responses drawn from the message grammar, some of them replies to HEAD requests — same header
+// section (Content-Length / Transfer-Encoding / Trailer as a GET would get them), no body (RFC 7230 3.3.3 rule 1).
+// Which ones is request context: returned as a script for the C line.
+func genHeadMix(g *lp.Gen) (heads string, raw []byte) {
+	n := 1 + g.Intn(3)
+	for i := 0; i < n; i++ {
+		m := genMsg(g, true)
+		if g.Chance(1, 2) || (n == 1) {
+			heads += "1"
+			m.Kind, m.Fixed, m.Chunks, m.Trailers, m.Last, m.LastExt = 'n', "", nil, nil, "", ""
+		} else {
+			heads += "0"
+		}
+		raw = append(raw, m.Render()...)
+	}
+	return heads, raw
+}
+
 func genNeighbour(g *lp.Gen, client bool) (string, []byte) {
 	if client {
-		switch g.Intn(11) {
+		switch g.Intn(10) {
 		case 0: // empty reason phrase (RFC 7230: reason-phrase may be empty)
 			m := simpleResp(g)
 			m.C = ""
@@ -89,38 +107,6 @@ func genNeighbour(g *lp.Gen, client bool) (string, []byte) {
 				class = "resp-1xx-204-with-framing" // a server MUST NOT; the reading rule is the same
 			}
 			return class, append(m.Render(), simpleResp(g).Render()...)
-		case 9: // RFC 7230 3.3.3 rule 1: the response to a HEAD request ends with its header section (request context: HEAD)
-			m := simpleResp(g)
-			m.B = g.Pick("200", "200", "404", "301")
-			m.Fixed = ""
-			if g.Chance(2, 3) {
-				m.Headers = []Hdr{{"Content-Length", 1, strconv.Itoa(g.PickInt(1, 5, 1+g.Intn(30), 100000))}}
-			} else {
-				m.Headers = []Hdr{{"Transfer-Encoding", 1, "chunked"}}
-			}
-			m.Kind = 'n'
-			return "resp-head-with-framing", append(m.Render(), simpleResp(g).Render()...)
-		case 3: // no framing at all: body delimited by EOF
-			m := simpleResp(g)
-			m.Headers = []Hdr{{"X-A", 1, "b"}}
-			m.Kind = 'n'
-			return "resp-until-eof", append(m.Render(), []byte(bodyBytes(g, g.Intn(20)))...)
-		case 4: // reason phrase that does not start with a letter
-			m := simpleResp(g)
-			m.C = g.Pick("2xx fine", "-", "(ok)")
-			return "resp-reason-nonalpha", follow(g, client, m.Render())
-		case 5: // two spaces before the reason / before the code
-			m := simpleResp(g)
-			return "resp-extra-sp", follow(g, client, replaceFirst(m.Render(), g.Pick("200 ", "HTTP/1.1 "), g.Pick("200  ", "HTTP/1.1  ")))
-		case 6: // status code not 3 digits
-			m := simpleResp(g)
-			m.B = g.Pick("20", "2000", "007")
-			return "resp-code-not-3-digits", follow(g, client, m.Render())
-		case 7: // chunked response on HTTP/1.0
-			m := withChunks(g, simpleResp(g))
-			m.Headers = m.Headers[1:]
-			m.A = "HTTP/1.0"
-			return "resp-chunked-http10", follow(g, client, m.Render())
 		default: // Connection: close response header is removed by net/http
 			m := simpleResp(g)
 			m.Headers = append(m.Headers, Hdr{"Connection", 1, "keep-alive, close"})
